@@ -23,3 +23,39 @@ generate, project, oracle, nontrivial, stats = _world.make(
         dict(n_proc=(0, 1), handlers=0.85, ctrl=0.2, traits=0.9, decoy=0.4,
              w=dict(addproc=0.3, rmproc=0.2, enable=3, dispatch=2, clear=0.7)),
     ])
+
+
+# ---------------------------------------------------------------------------- objects the program lets go of
+from harness.props import C10 as _c10       # noqa: E402
+
+
+class _ForgetStream(_c10._WorldStream):
+    """World histories in which the program drops its references (a removed component whose return value
+    is thrown away, ...): a postponed on_add / on_remove still reaches its component, in order."""
+
+    @staticmethod
+    def oracle(lines, obs):
+        from harness import spec_world
+        out = []
+        for v in spec_world.check(lines, obs):
+            if v['sig'].split(':')[0] in CLAUSES | {'outcome', 'kept-alive', 'collected-while-attached'}:
+                out.append({'sig': 'C02:forget:' + v['sig'], 'what': v['what']})
+        return out
+
+
+def stream_for(lines):
+    return _ForgetStream if any(ln.startswith('op forget') for ln in lines) else None
+
+
+def extra_checks(ctx):
+    import random
+    from harness import core
+    from harness.models import world as impl_world
+    rng = random.Random(ctx.seed * 7907 + 2)
+    n = 150 if ctx.tier == 'quick' else 3000
+    scen = list(_ForgetStream.generate(rng, n))
+    divs, nontriv, impl_obs, _ = core.correspondence(ctx, _ForgetStream, impl_world, scen, 'forget')
+    if divs:
+        ctx.broken.append({'kind': 'correspondence', 'stream': 'forget', 'count': len(divs), 'first': divs[0]})
+    ctx.cov['forget_stream'] = {'scenarios': n, 'nontrivial': len(nontriv),
+                                'forget_ops': sum(1 for s in scen for l in s if l.startswith('op forget'))}
